@@ -399,6 +399,12 @@ def _discount_matrix(ctx: Ctx, tdr):
                 if cn == "torch.arange" and len(e.args) == 1:
                     n = e.args[0]
                     from sa.astutil import extent_of as _eo
+                    hops = 0
+                    while isinstance(n, ast.Name) and hops < 5:  # a named extent `T = r.shape[1]`
+                        ds_ = list(rd.defs_of(n))
+                        if len(ds_) != 1 or ds_[0].kind != "assign":
+                            break
+                        n, hops = ds_[0].value, hops + 1
                     eo_ = _eo(n)
                     if eo_ is None or eo_[0] != rname:
                         raise Undecided(f"arange extent `{u(n)}`")
